@@ -202,6 +202,14 @@ def function(ip: Interp, fn: PyConst, args, kwargs, n):
         return PyTuple(['__iter__', x])
     if name == 'getattr':
         obj, attr, *default = args
+        if isinstance(obj, PRec) and ip.w.registry.classes.get(obj.cls, {}).get('attrview') and not isinstance(attr, str):
+            # an object seen as its attribute table (dkeys = names present, dvals = values): getattr(obj, <symbolic name>)
+            k = ip.as_str(attr, n)
+            if default:
+                return z3.If(z3.Select(obj.f['dkeys'], k), z3.Select(obj.f['dvals'], k), ip.to_val(default[0], n))
+            if not ip.spec:
+                ip.p.oblige('safety', z3.Select(obj.f['dkeys'], k), n, 'attribute present (AttributeError)', tag='safety')
+            return z3.Select(obj.f['dvals'], k)
         if not isinstance(attr, str):
             ip.oos('getattr with dynamic name', n)
         if isinstance(obj, Opaque):
@@ -217,6 +225,8 @@ def function(ip: Interp, fn: PyConst, args, kwargs, n):
             raise
     if name == 'hasattr':
         obj, attr = args
+        if isinstance(obj, PRec) and ip.w.registry.classes.get(obj.cls, {}).get('attrview') and not isinstance(attr, str):
+            return z3.Select(obj.f['dkeys'], ip.as_str(attr, n))
         if isinstance(obj, PRec):
             return attr in obj.f or ip.find_method(obj.cls, attr)[0] is not None
         if isinstance(obj, Opaque):
@@ -304,14 +314,50 @@ def function(ip: Interp, fn: PyConst, args, kwargs, n):
         d, f = args
         if z3.is_expr(d) and z3.is_array(d):
             ksort = d.sort().domain()  # a set (Array K Bool): the quantifier ranges over the key sort
+        elif S.is_val(d):
+            ksort = z3.StringSort()  # a dict value
         else:
-            ks = d.f['okeys'] if isinstance(d, PRec) and 'okeys' in d.f else d.f['mkeys']
+            ks = d.f['okeys'] if isinstance(d, PRec) and 'okeys' in d.f else (d.f['dkeys'] if 'dkeys' in d.f else d.f['mkeys'])
             ksort = ks.sort().basis() if S.is_seq(ks) else ks.sort().domain()
         k = z3.FreshConst(ksort, 'key')
         body = ip.call_closure(f, None, [k], {}, n)
         body = ip.truth(body, n)
         body = body if z3.is_expr(body) else z3.BoolVal(body)
         return z3.ForAll([k], body) if name == 'forall_keys' else z3.Exists([k], body)
+    if name == 'dataclasses_is_dataclass':
+        (x,) = args
+        return isinstance(x, PRec) and bool(ip.w.registry.classes.get(x.cls, {}).get('attrview'))
+    if name == 'dataclasses_replace':
+        # dataclasses.replace(obj, **changes) on an attribute-view record: a NEW object of the same class whose constructor
+        # receives, for every init field, the change when one is given and obj's current value otherwise (ghost `cvals`);
+        # the attribute values after __post_init__ are not modelled (fresh).  A change naming something that is not an
+        # init field raises (TypeError / ValueError): safety obligation.
+        (obj,) = args
+        if not (isinstance(obj, PRec) and ip.w.registry.classes.get(obj.cls, {}).get('attrview')):
+            ip.oos('dataclasses.replace on this object', n)
+        ch = kwargs.get('**')
+        if ch is None or set(kwargs) - {'**'}:
+            ip.oos('dataclasses.replace with explicit keywords', n)
+        dv = ip.dictview(ch)
+        if dv is not None:
+            ck, cv = dv[0](), dv[2]()
+        else:
+            ch = ip.to_val(ch, n)
+            ip.p.oblige('type', Val.is_vdict(ch), n, '** argument is a mapping')
+            ck, cv = Val.dkeys(ch), Val.dvals(ch)
+        k = ip.p.fresh('k', z3.StringSort())
+        noninit = ip.w.uf('uf_noninit__String', z3.StringSort(), z3.BoolSort())  # same symbol as the spec function uf_noninit
+        if not ip.spec:
+            ip.p.oblige('safety', z3.ForAll([k], z3.Implies(z3.Select(ck, k), z3.And(z3.Select(obj.f['dkeys'], k), z3.Not(noninit(k))))), n,
+                        'dataclasses.replace: every change names an init field of the object (TypeError / ValueError)', tag='safety')
+        new = PRec(obj.cls, {'dkeys': obj.f['dkeys'], 'dvals': ip.p.fresh('replaced_vals', obj.f['dvals'].sort()),
+                             'cvals': ip.p.fresh('ctor_args', obj.f['dvals'].sort())})
+        ax = z3.ForAll([k], z3.Select(new.f['cvals'], k) == z3.If(z3.Select(ck, k), z3.Select(cv, k), z3.Select(obj.f['dvals'], k)))
+        ip.p.path_axioms.append(ax)
+        ip.p.pc.append(ax)
+        ip.w.assumptions.add('dataclasses.replace(obj, **changes): a new object constructed from obj\'s field values with the changes laid over them '
+                             '(trusted model of the standard library; __post_init__ normalisation of the result is not modelled)')
+        return new
     if name == 'is_suffix':
         a, b = args
         return z3.SuffixOf(a, b)
@@ -654,6 +700,9 @@ def _isinstance1(ip, x, cc: PyConst, n):
                 return Val.is_vtup(x)
             if name == 'dict':
                 return Val.is_vdict(x)
+            if name in ('set', 'frozenset'):
+                # sets are not a constructor of Val: some other object, recognised by an uninterpreted predicate
+                return z3.And(Val.is_vobj(x), ip.w.uf(f'val_is_{name}', Val, z3.BoolSort())(x))
             if name == 'type':
                 return ip.w.uf('val_is_type', Val, z3.BoolSort())(x)
             ip.oos(f'isinstance(Val, {name})', n)
@@ -841,7 +890,25 @@ def method(ip: Interp, recv, name, t: PyConst, args, kwargs, n):
             return ip.call_contract(ip.w.registry.generic[t.name], None, [FuncVal(t.name, recv.ident), *args], kwargs, n)
         ip.oos(f'opaque method {name}', n)
     if t.kind == 'supermethod':
-        ip.oos(f'super().{name}', n)
+        # super().m(...): the next definition of m along the declared MRO after the class of the running function
+        if not isinstance(recv, PRec):
+            ip.oos(f'super().{name} on this receiver', n)
+        mro = ip.w.registry.classes.get(recv.cls, {}).get('mro', [])
+        names = [k.split(':')[1] for k in mro]
+        start = names.index(ip.cls) + 1 if ip.cls in names else 0
+        for key in mro[start:]:
+            rel, cname = key.split(':')
+            cdef = ip.w.repo.find_class(rel, cname)
+            if cdef is None:
+                continue
+            for child in cdef.body:
+                if isinstance(child, ast.FunctionDef) and child.name == name:
+                    ckey = f'{rel}:{cname}.{name}'
+                    c = ip.w.registry.get(ckey)
+                    if c is not None and not ip.w.registry.force_inline(ckey) and ip._self_sort_fits(c, recv.cls):
+                        return ip.call_contract(c, recv, args, kwargs, n)
+                    return ip.call_closure(Closure(child, {}, rel, cname), recv, args, kwargs, n)
+        ip.oos(f'super().{name}: no definition further along the MRO', n)
     # value methods
     if isinstance(recv, Char):
         return char_method(ip, recv, name, args, n)
